@@ -228,6 +228,14 @@ def sweep_volnames(quick):
             yield {"sweep": "names", "family": "volnames", "spec": {"parts": parts}}
 
 
+def sweep_manyparts(quick):
+    """images of 26, 27, 29 and 33 partitions (one small sample each, differing lengths and rates): every one is exported"""
+    for n in (26, 27, 29, 33):
+        parts = [{"vols": [{"name": "V%02d" % i, "dir": [3], "files": [{"name": "S%02d" % i, "n": 40 + i, "chain": [4], "seq": 1 + i % 40,
+                                                                         "rate": [44100, 22050][i % 2]}]}]} for i in range(n)]
+        yield {"sweep": "names", "family": "manyparts", "spec": {"parts": parts}}
+
+
 def sweep_slots(quick):
     """the volume table is indexed by volume number and may have holes: every non-empty set of <=3 occupied slots out of
     {0,1,2,3,50,98,99} (thorough: <=4), volumes stored in ascending and in descending slot order"""
@@ -334,7 +342,7 @@ class Check(CheckBase):
             "sample id x file type x volume type; (sizes) every partition size 6..139 sectors (thorough ..399), alternately followed by a second partition; (slack) chains longer than the file needs x order x markers; (structure) partitions{1,2,3} x volumes{0,1,2} x files{0..3} x "
             "volume type x directory storage, L/R pair, non-sample siblings, trailing bytes; (pairs) all pairs of "
             "single deviations; (names) 13 families (covering all 41 characters) (incl. two / three distinct samples with one name) of names using the non-letter characters of the AKAI set (. # + - digits "
-            "blanks, 12 characters) x 5 volume names, and 8 sets of equal / nearly equal sibling VOLUME names holding same-named samples with different audio (one and two partitions), judged by content only; (slots) every set of <=3 (thorough 4) occupied "
+            "blanks, 12 characters) x 5 volume names, and 8 sets of equal / nearly equal sibling VOLUME names holding same-named samples with different audio (one and two partitions), and images of 26 / 27 / 29 / 33 partitions, judged by content only; (slots) every set of <=3 (thorough 4) occupied "
             "volume-table slots out of {0,1,2,3,50,98,99} in both storage orders; (bigdir) volumes of 63..510 one-sector samples "
             "(around powers of two and the 340-entry capacity of a one-sector file table); (pairlen) equal-length L/R pairs of 1..12219 words at 8000 / 22050 / 32000 / 44100 / 48000 Hz (around the 2048-word block and the sector "
             "size), contiguous and interleaved chains; the header, structure, names and slots "
@@ -345,7 +353,7 @@ class Check(CheckBase):
 
     def shards(self):
         cases = []
-        for sw in (sweep_length, sweep_slack, sweep_sizes, sweep_header, sweep_structure, sweep_pairs, sweep_alloc, sweep_names, sweep_volnames, sweep_slots, sweep_bigdir, sweep_pairlen):
+        for sw in (sweep_length, sweep_slack, sweep_sizes, sweep_header, sweep_structure, sweep_pairs, sweep_alloc, sweep_names, sweep_volnames, sweep_manyparts, sweep_slots, sweep_bigdir, sweep_pairlen):
             cases.extend(sw(self.quick))
         self._n = len(cases)
         return self.chunk(cases, 24)
